@@ -81,14 +81,24 @@ Proof.
   - destruct tk; cbn [fst snd]; [apply IH, H|]. split; [apply quiet_agree, H|reflexivity].
 Qed.
 
+Lemma end_task_agree i how s s' tk : AgreeX i s s' -> AgreeX i (end_task i how s tk) (end_task i how s' tk).
+Proof.
+  intros H. unfold end_task. apply AgreeX_say, AgreeX_on_w; [exact H|]. destruct H as [[a b c] _]. constructor; assumption.
+Qed.
+
+Lemma fold_end_task_agree i : forall l s s', AgreeX i s s' -> AgreeX i (fold_left (end_task i 0) l s) (fold_left (end_task i 0) l s').
+Proof. induction l as [|tk l IH]; intros s s' H; cbn [fold_left]; [exact H|]. apply IH, end_task_agree, H. Qed.
+
+Lemma AgreeX_say_all i l s s' : AgreeX i s s' -> AgreeX i (say_all l s) (say_all l s').
+Proof. intros [a b]. split; [exact a|]. cbn [say_all x_log]. rewrite b. reflexivity. Qed.
+
 Lemma poll1_agree k now i s s' tk : AgreeX i s s' -> AgreeX i (poll1 k now i s tk) (poll1 k now i s' tk).
 Proof.
   intros H. pose proof H as [Ha Hl]. unfold poll1. rewrite (ag_act _ _ _ Ha i).
   match goal with |- context [run_prog true k now i ?who ?p (say ?it s)] =>
     destruct (run_prog_agree true k now i who p (say it s) (say it s') (AgreeX_say i it s s' H)) as [H1 H2];
     destruct (run_prog true k now i who p (say it s)) as [s1 r]; destruct (run_prog true k now i who p (say it s')) as [s1' r'] end.
-  cbn [fst snd] in H1, H2. subst r'. destruct H1 as [Ha1 Hl1]. destruct r; try (split; assumption).
-  - apply AgreeX_on_w; [split; assumption|]. apply (Agree_upd i _ _ (fun x => set_tfin x (tfin x + 1)) Ha1).
+  cbn [fst snd] in H1, H2. subst r'. destruct H1 as [Ha1 Hl1]. destruct r; try (apply end_task_agree; split; assumption).
   - apply AgreeX_on_w; [split; assumption|].
     apply (Agree_upd i _ _ (fun x => set_timers x (tins (now + d) {| tk_id := tk_id tk; tk_inc := tk_inc tk; tk_new := false; tk_rest := rest |} (timers x))) Ha1).
 Qed.
@@ -106,22 +116,24 @@ Qed.
 Lemma spawn_all_agree i ps w w' : Agree i w w' -> Agree i (spawn_all i ps w) (spawn_all i ps w').
 Proof.
   intros H. unfold spawn_all.
-  apply (Agree_upd i w w' (fun x => set_ready x (ready x ++ map (fun ip => {| tk_id := N.of_nat (fst ip); tk_inc := inc x; tk_new := true; tk_rest := snd ip |})
-                                                                (combine (seq 0 (length ps)) ps))) H).
+  apply (Agree_upd i w w' (fun x => set_hnd (set_ready x (ready x ++ map (fun ip => {| tk_id := N.of_nat (fst ip); tk_inc := inc x; tk_new := true; tk_rest := snd (snd ip) |})
+                                                                (combine (seq 0 (length ps)) ps)))
+                                             (hnd x ++ map (fun i0 => (inc x, N.of_nat i0)) (seq 0 (length ps)))) H).
 Qed.
 
 Lemma exec_agree k now i c sp p s s' : AgreeX i s s' ->
   AgreeX i (fst (exec k now i c sp p s)) (fst (exec k now i c sp p s')) /\
   snd (exec k now i c sp p s) = snd (exec k now i c sp p s').
 Proof.
-  intros H. pose proof H as [Ha Hl]. unfold exec. rewrite (ag_act _ _ _ Ha i).
-  match goal with |- context [run_prog false k now i 0 p (on_w ?f (say ?it s))] =>
-    assert (H0 : AgreeX i (on_w f (say it s)) (on_w f (say it s')))
-      by (apply AgreeX_on_w; [apply AgreeX_say, H|apply spawn_all_agree, Ha]);
+  intros H. pose proof H as [Ha Hl]. unfold exec. rewrite (ag_act _ _ _ Ha i), (ag_mod _ _ _ Ha).
+  match goal with |- context [run_prog false k now i 0 p (say_all ?l (on_w ?f (say ?it s)))] =>
+    assert (H0 : AgreeX i (say_all l (on_w f (say it s))) (say_all l (on_w f (say it s'))))
+      by (apply AgreeX_say_all, AgreeX_on_w; [apply AgreeX_say, H|apply spawn_all_agree, Ha]);
     destruct (run_prog_agree false k now i 0 p _ _ H0) as [H1 H2];
-    destruct (run_prog false k now i 0 p (on_w f (say it s))) as [s2 r];
-    destruct (run_prog false k now i 0 p (on_w f (say it s'))) as [s2' r'] end.
+    destruct (run_prog false k now i 0 p (say_all l (on_w f (say it s)))) as [s2 r];
+    destruct (run_prog false k now i 0 p (say_all l (on_w f (say it s')))) as [s2' r'] end.
   cbn [fst snd] in H1, H2. subst r'. destruct r; cbn [fst snd]; split; try reflexivity; try exact H1; try (apply poll_ready_agree, H1).
+  rewrite (ag_mod _ _ _ (proj1 H1)). apply fold_end_task_agree.
   apply AgreeX_on_w; [exact H1|]. apply (Agree_upd i _ _ (fun x => set_ready x []) (proj1 H1)).
 Qed.
 
@@ -222,16 +234,17 @@ Proof.
   intros j. specialize (g2 j). cbn [w_mod set_mod] in *. exact g2.
 Qed.
 
-(* the world after a shutdown request is consumed does not depend on the configuration *)
-Lemma shutdown_part_cfg c c' now i w : fst (shutdown_part c now i w) = fst (shutdown_part c' now i w).
-Proof. unfold shutdown_part. destruct (shut (w_mod w i)); reflexivity. Qed.
 
 (* what the events an event of module i adds to the event set can be *)
 Definition add_ok (i : N) (p : N * fev) : Prop := msg_ev p \/ snd p = EvWake i \/ snd p = EvRestart i.
 
 (* one module event on two agreeing worlds (possibly of two scripts, possibly with two callbacks
    whose results agree) *)
-Lemma around_agree2 sc sc' now i f f' w w' : Agree i w w' -> CbOK i f -> CbOK i f' -> w_buf w = [] ->
+Lemma dropped_len c c' x : length (c_tasks c) = length (c_tasks c') -> dropped c x = dropped c' x.
+Proof. intros H. unfold dropped. rewrite H. reflexivity. Qed.
+
+Lemma around_agree2 sc sc' now i f f' w w' : length (c_tasks (cfg sc i)) = length (c_tasks (cfg sc' i)) ->
+  Agree i w w' -> CbOK i f -> CbOK i f' -> w_buf w = [] ->
   Agree i (x_w (f {| x_w := activate now i w; x_log := [] |})) (x_w (f' {| x_w := activate now i w'; x_log := [] |})) ->
   Agree i (fst (around sc now i f w)) (fst (around sc' now i f' w')) /\
   (exists adds, w_fes (fst (around sc now i f w)) = fes_flush adds (w_fes w) /\
@@ -240,7 +253,7 @@ Lemma around_agree2 sc sc' now i f f' w w' : Agree i w w' -> CbOK i f -> CbOK i 
    x_log (f {| x_w := activate now i w; x_log := [] |}) = x_log (f' {| x_w := activate now i w'; x_log := [] |}) ->
    snd (around sc now i f w) = snd (around sc' now i f' w')).
 Proof.
-  intros H Hok Hok' Hb Ha. unfold around.
+  intros Hct H Hok Hok' Hb Ha. unfold around.
   destruct (Hok {| x_w := activate now i w; x_log := [] |}) as [[_ Ff _ _ _ (lb & Hlb & Mlb)] _].
   destruct (Hok' {| x_w := activate now i w'; x_log := [] |}) as [[_ Ff' _ _ _ _] _].
   cbn [x_w] in Ff, Ff', Hlb. rewrite activate_fes in Ff, Ff'. rewrite activate_buf, Hb in Hlb. cbn [app] in Hlb.
@@ -253,6 +266,7 @@ Proof.
     destruct (lt_nw t (nw (w_mod (x_w s) i))); [|constructor]. constructor; [right; left; reflexivity|constructor]. }
   assert (Hbf : Forall (add_ok i) (w_buf (x_w s))) by (rewrite Hlb; eapply Forall_impl; [|exact Mlb]; intros p Hp; left; exact Hp).
   unfold buf_process, shutdown_part. cbn [w_mod set_buf set_fes]. rewrite <- d1.
+  rewrite (dropped_len (cfg sc i) (cfg sc' i) _ Hct).
   destruct (shut (w_mod (deactivate i (x_w s)) i)) as [r|] eqn:Es; cbn [fst snd].
   - split; [|split].
     + destruct r; constructor; cbn [w_mod w_buf w_fes set_fes set_mod set_buf]; try reflexivity;
